@@ -106,6 +106,11 @@ func parseClusterNodesSlot(segements []string) ([]int, error) {
 			if err != nil {
 				return nil, errInvalidClusterNodes
 			}
+			// the range must be inside [0, slotNum), otherwise the loop
+			// below is bounded by what the backend says only.
+			if start < 0 || end >= slotNum || start > end {
+				return nil, errInvalidClusterNodes
+			}
 			for i := start; i <= end; i++ {
 				slots = append(slots, i)
 			}
